@@ -110,6 +110,21 @@ def get_roles(ctx):
     return ctx.cache['roles']
 
 
+def recv_types(ctx, nid):
+    """Concatenated element types of the channels a function receives from (try_recv / recv / try_iter / iter), in its own body or in
+    the closures it builds (e.g. `iter::from_fn(|| ch.try_recv().ok())`)."""
+    prog = ctx.prog
+    out = ''
+    for x in [nid] + list(prog.closures_of.get(nid, [])):
+        bx = prog.bodies.get(x)
+        if bx is None:
+            continue
+        for _, t in bx.calls():
+            if prog.call_targets(bx, t)[1] in CHAN_RECV:
+                out += (t.get('self_ty') or {}).get('s', '') + ' '
+    return out
+
+
 def ts_name_kind(name):
     """Which per-entry timestamp store a field name denotes: 'wo' (last modified) / 'ao' (last accessed) / None.  The two stores are
     told apart by the stem of their name (last_modified, modified, mtime_.. do not all qualify: `modif` / `access` must occur)."""
@@ -255,7 +270,7 @@ def upsert_role(ctx):
         for nid, b in prog.bodies.items():
             if b.kind == 'closure' or not nid.startswith('sync::'):
                 continue
-            is_cons = any(prog.call_targets(b, t)[1] in CHAN_RECV and 'WriteOp' in t.get('self_ty', {}).get('s', '') for _, t in b.calls())
+            is_cons = 'WriteOp' in recv_types(ctx, nid)
             if not is_cons:
                 continue
             sx = ctx.symex(inline_depth=0, loop_visits=2, inline_pred=lambda n_, bb, d: False)
